@@ -137,7 +137,7 @@ impl Run {
         let deadline_s = std::env::var("VERIF_BUDGET_S")
             .ok()
             .and_then(|s| s.parse::<f64>().ok())
-            .unwrap_or(if tier == Tier::Quick { 50.0 } else { 1500.0 });
+            .unwrap_or(if tier == Tier::Quick { 40.0 } else { 1500.0 });
         install_panic_hook();
         // known findings
         let mut known = vec![];
@@ -192,6 +192,11 @@ impl Run {
     /// of it must call `cap(..)` so that the run is not labelled exhaustive.
     pub fn over_budget(&self) -> bool {
         self.elapsed() > self.deadline_s
+    }
+
+    /// Same for a share of the budget (checks with several parts give each part its own share).
+    pub fn over_budget_frac(&self, frac: f64) -> bool {
+        self.elapsed() > self.deadline_s * frac
     }
 
     pub fn budget_s(&self) -> f64 {
